@@ -122,6 +122,9 @@ func peerGetOne(coll string, filter bson.M) (map[string]interface{}, error) {
 		peerMu.Lock()
 		sc := peerScripts[k.ue]
 		peerMu.Unlock()
+		if sc == nil {
+			sweepDelay(k.ue, callerServer())
+		}
 		if sc != nil {
 			srv := callerServer()
 			delay := 0
@@ -252,6 +255,9 @@ func onlineUpdate(supi, sid string, seq int, vol int) *models.ChfConvergedChargi
 }
 
 func runPeer(line string, t []string) string {
+	if len(t) >= 1 && t[0] == "sweep" {
+		return runPeerSweep(t)
+	}
 	if len(t) < 2 || t[0] != "scen" {
 		return "bad-op"
 	}
